@@ -92,6 +92,114 @@ def expected_kind(v):
   return "leaf"
 
 
+# ---- independent reference: what one call of the built partial must hand to the callable ----------
+class RefSkip(Exception):
+  pass
+
+
+def ref_value(v, memo, per_call):
+  """Value tree (no identities) that `v` denotes inside one call: Configs are built once per fdl.build
+  (memo), ArgFactories once per call of the partial that holds them (evaluated afresh here), nested
+  Partials become partial objects, containers are mapped."""
+  if isinstance(v, fdl.ArgFactory):
+    return ref_object(v, memo, per_call)
+  if isinstance(v, fdl.Partial):
+    if any(contains_factory(x) for x in v.__arguments__.values()):
+      raise RefSkip()   # a nested partial with its own factories is a wrapper object: left to the model
+    pos, kw = ref_args(v, memo, per_call)
+    return ("partial", l2.sym_name(v.__fn_or_cls__), tuple(pos), tuple(sorted(kw.items())))
+  if isinstance(v, fdl.Config):
+    if any(contains_factory(x) for x in v.__arguments__.values()):
+      raise RefSkip()   # an ArgFactory inside a Config's arguments is never invoked: outside the reference
+    if id(v) not in memo:
+      memo[id(v)] = ref_object(v, memo, per_call)
+    return memo[id(v)]
+  if isinstance(v, config_lib.Buildable):
+    raise RefSkip()
+  if isinstance(v, dict):
+    return ("dict", tuple(sorted((repr(k), ref_value(x, memo, per_call)) for k, x in v.items())))
+  if isinstance(v, list):
+    return ("list", tuple(ref_value(x, memo, per_call) for x in v))
+  if isinstance(v, tuple):
+    return ("tuple", tuple(ref_value(x, memo, per_call) for x in v))
+  return ("leaf", type(v).__name__, repr(v))
+
+
+def ref_args(b, memo, per_call):
+  keys = list(b.__arguments__)
+  ints = sorted(k for k in keys if isinstance(k, int))
+  if ints != list(range(len(ints))):
+    raise RefSkip()
+  params = l2.sig_params(b.__fn_or_cls__)
+  # positional-or-keyword values stored by name are passed by keyword; a gap before *args is not generated
+  pos = [ref_value(b.__arguments__[k], memo, per_call) for k in ints]
+  kw = {k: ref_value(b.__arguments__[k], memo, per_call) for k in keys if isinstance(k, str)}
+  return pos, kw
+
+
+def ref_bind(fn, pos, kw):
+  import inspect
+  try:
+    ba = inspect.signature(fn).bind(*pos, **kw)
+  except TypeError:
+    raise RefSkip()
+  ba.apply_defaults()
+  out = []
+  for name, val in ba.arguments.items():
+    kind = inspect.signature(fn).parameters[name].kind.name
+    if kind == "VAR_POSITIONAL":
+      out.append((name, ("tuple", tuple(val))))
+    elif kind == "VAR_KEYWORD":
+      out.append((name, ("dict", tuple(sorted((repr(k), x) for k, x in val.items())))))
+    elif isinstance(val, tuple) and val and val[0] in ("leaf", "obj", "partial", "dict", "list", "tuple"):
+      out.append((name, val))
+    else:
+      out.append((name, ("leaf", type(val).__name__, repr(val))))   # a default of the callable
+  return tuple(sorted(out))
+
+
+def ref_object(b, memo, per_call):
+  pos, kw = ref_args(b, memo, per_call)
+  return ("obj", l2.sym_name(b.__fn_or_cls__), ref_bind(b.__fn_or_cls__, pos, kw))
+
+
+def observed_value(x):
+  """The same value tree for what the callable really received."""
+  if hasattr(x, "view") and hasattr(x, "fn"):
+    items = []
+    for k, v in dict(x.view).items():
+      items.append((k, observed_value(v)))
+    return ("obj", x.fn, tuple(sorted(items)))
+  if isinstance(x, functools.partial):
+    return ("partial", l2.sym_name(x.func), tuple(observed_value(a) for a in x.args),
+            tuple(sorted((k, observed_value(v)) for k, v in x.keywords.items())))
+  if isinstance(x, dict):
+    return ("dict", tuple(sorted((repr(k), observed_value(v)) for k, v in x.items())))
+  if isinstance(x, list):
+    return ("list", tuple(observed_value(v) for v in x))
+  if isinstance(x, tuple):
+    return ("tuple", tuple(observed_value(v) for v in x))
+  return ("leaf", type(x).__name__, repr(x))
+
+
+def same_unless_factory(cfg_value, got_a, got_b, path, problems):
+  """Sub-values that involve no ArgFactory must be the very same objects in two calls."""
+  if isinstance(cfg_value, fdl.ArgFactory):
+    return
+  if isinstance(cfg_value, config_lib.Buildable) or not contains_factory(cfg_value):
+    if isinstance(cfg_value, (config_lib.Buildable, list, dict)) and got_a is not got_b:
+      problems.append(f"the value at {path} involves no ArgFactory but is a different object in another call")
+    return
+  if isinstance(cfg_value, dict) and isinstance(got_a, dict) and isinstance(got_b, dict):
+    for k in cfg_value:
+      if k in got_a and k in got_b:
+        same_unless_factory(cfg_value[k], got_a[k], got_b[k], f"{path}[{k!r}]", problems)
+  elif isinstance(cfg_value, (list, tuple)) and isinstance(got_a, (list, tuple)) and isinstance(got_b, (list, tuple)) \
+      and len(got_a) == len(cfg_value) == len(got_b):
+    for i, c in enumerate(cfg_value):
+      same_unless_factory(c, got_a[i], got_b[i], f"{path}[{i}]", problems)
+
+
 def run(tier: str, seed: int) -> Result:
   rng = random.Random(seed * 256203221 + 4)
   res = Result()
@@ -134,6 +242,8 @@ def run(tier: str, seed: int) -> Result:
     problems = []
     seen_per_key = {}
     all_results_objs = []
+    ref_memo = {}
+    prev_view, prev_ckw = None, {}
     for c in range(rng.randint(1, 4)):
       ckw = {}
       if kw_names and rng.random() < 0.6:
@@ -150,6 +260,24 @@ def run(tier: str, seed: int) -> Result:
         continue
       calls.append(ckw)
       view = out.view
+      # ---- oracle: the callable received exactly the configured values (independent reference)
+      try:
+        memo = ref_memo
+        pos_r, kw_r = ref_args(cfg, memo, None)
+        kw_r.update({k: ("leaf", type(v).__name__, repr(v)) for k, v in ckw.items()})
+        want = ("obj", l2.sym_name(cfg.__fn_or_cls__), ref_bind(cfg.__fn_or_cls__, pos_r, kw_r))
+        got_v = observed_value(out)
+        if want != got_v:
+          problems.append(f"call {c}: the callable received {str(got_v)[:300]}, configured {str(want)[:300]}")
+      except RefSkip:
+        res.count("reference-skipped")
+      # ---- oracle: sub-values that involve no ArgFactory are the same objects in every call
+      if prev_view is not None:
+        for key, cv in cfg.__arguments__.items():
+          if isinstance(key, str) and key not in ckw and key not in prev_ckw and key in view and key in prev_view \
+              and key in kw_names:
+            same_unless_factory(cv, prev_view[key], view[key], repr(key), problems)
+      prev_view, prev_ckw = view, ckw
       # ---- oracle: overrides, reuse of build-time objects, freshness of factory products
       for k, v in ckw.items():
         got = view.get(k, view.get(next((q[0] for q in params if q[1] == "VarKw"), "_"), {}).get(k)
